@@ -9,7 +9,7 @@ MANIFEST = {
     "note": "Trusted: Coq kernel; hand transcription of macroexpand_internal/macroexpand_completely (bound by the correspondence incl. poll counts); prelude text is generated from the source. Termination of expansion for arbitrary user macros is not a theorem (it depends on the macros); the unrestricted idempotence/meaning statements are checked on the binary as monitors, not proved for every program.",
     "technique": "Coq one-step rules derived from the transcribed expander + kernel computation on the generated prelude + differential check and idempotence/meaning monitors on the binary",
 }
-TARGETS = ["Properties/C09.v"]
+TARGETS = ["Properties/C09.v", "Eval/PreludeState.v"]
 IMPORTS = ["Eval.EvalRules", "Eval.ExpandProofs", "Properties.C09"]
 THEOREMS = [
     ("C09_quote_shield", 'forall f st e env m d ch q rest, (MAXD <? d)%N = false -> list_to_vec e = Some (q :: rest) -> is_sym q (s "macro") = false -> is_sym q (s "quote") = true -> expand_internal (S f) st e env m d ch = (st, ROk e, ch)'),
